@@ -51,7 +51,8 @@ class Calls(Interp):
         kwargs = {}
         for k in n.keywords:
             if k.arg is None:
-                raise Unsupported("**kwargs call")
+                kwargs["**"] = self.ev(k.value)
+                continue
             kwargs[k.arg] = self.ev(k.value)
         return self.call(fv, args, kwargs, n)
 
@@ -140,6 +141,9 @@ class Calls(Interp):
         return binding
 
     def call_function(self, fi, args, kwargs, node=None):
+        hook = self.reg.func_hooks.get(fi.fid)
+        if hook is not None and fi.fid != self.fid:
+            return hook(self, args, kwargs)
         c = self.reg.contracts.get(fi.fid)
         top = self.reg.contracts.get(self.fid)
         use_contract = c is not None and fi.fid != self.fid and not (top and fi.fid in top.inline_callees) and not self.force_inline
@@ -217,10 +221,17 @@ class Calls(Interp):
                     self.st.ghost[g] = self.havoc_value(self.st.ghost[g], "g_" + g)
                 continue
             if path.startswith("heap:"):
-                a = path[5:]
+                a = path[5:].split("#")[0]
                 ty, _ = self.reg.attrs[a]
-                self.heap_arr(a, ty)
-                self.st.objheap[a] = self.fresh("heap_" + a, self.st.objheap[a].sort())
+                if isinstance(ty, TSet):
+                    comps = {a + "#mem": z3.ArraySort(ty.e.sort(), z3.BoolSort()), a + "#count": z3.IntSort()}
+                elif isinstance(ty, TList):
+                    comps = {a + "#arr": z3.ArraySort(z3.IntSort(), ty.e.sort()), a + "#len": z3.IntSort()}
+                else:
+                    comps = {a: ty.sort()}
+                for cn, srt in comps.items():
+                    self.heap_component(cn, srt)
+                    self.st.objheap[cn] = self.fresh("heap_" + cn, self.st.objheap[cn].sort())
                 continue
             parts = path.split(".")
             base = binding[parts[0]]
@@ -296,9 +307,11 @@ class Calls(Interp):
         env = dict(self.spec_env)
         env.update(dict(zip(params, args)))
         self.spec_env = env
+        self.spec_mode += 1
         try:
             return self.ev(self.parse_clause(body))
         finally:
+            self.spec_mode -= 1
             self.spec_env = saved
 
     def in_state(self, st, spec_env, old, fn):
@@ -421,14 +434,31 @@ class Calls(Interp):
     def sp_ghost(self, n):
         return self.st.ghost[n.args[0].value]
 
+    def sp_stack_unchanged(self, n):
+        """stack_unchanged(<stack expr>): the call stack holds the same frames as at entry."""
+        cur = self.cont(self.ev(n.args[0]))
+        snap = self.old_state.snapshot()
+        snap.env = self.st.env
+        old = self.in_state(snap, self.spec_env, self.old_state, lambda: self.cont(self.ev(n.args[0])))
+        same_items = len(cur.items) == len(old.items) and all(isinstance(a, VEnt) and isinstance(b, VEnt) and a.oid == b.oid for a, b in zip(cur.items, old.items))
+        same_top = isinstance(cur.prefix_top, VEnt) and isinstance(old.prefix_top, VEnt) and cur.prefix_top.oid == old.prefix_top.oid
+        if not (same_items and same_top):
+            return VBool(False)
+        return VBool(cur.prefix_some == old.prefix_some)
+
+    def sp_truthy(self, n):
+        return VBool(self.truth(self.ev(n.args[0])))
+
     def sp_isnone(self, n):
         return VBool(self.equal(self.ev(n.args[0]), VNone))
 
     # ------------------------------------------------------------------ constructors
     def construct(self, cls, args, kwargs, node):
         name = cls.name
-        if name in BUILTIN_EXC or name in self.reg.exc_bases:
+        if name in BUILTIN_EXC or (name in self.reg.exc_bases and is_exc_subclass(self.reg, self.src, name, "BaseException")):
             return VExc(name, args)
+        if name in self.reg.constructors:
+            return self.reg.constructors[name](self, args, kwargs)
         if name in self.reg.records:
             rty = self.reg.records[name]
             fnames = [f for f, _ in rty.fields]
@@ -469,15 +499,27 @@ class Calls(Interp):
             if not ok:
                 raise Unsupported("__init__ of opaque class %s is not a plain field initialiser" % name)
         binding = self.bind_params(init, [VNone] + list(args), kwargs)
-        o = self.fresh("new_" + name, ObjSort)
-        self.assume(o != PyNone)
+        o = self.fresh_obj(name)
         self.assume(self.class_pred(name)(o))
         for p_ in params:
             a = self.reg.attrs.get(p_)
             if a is None:
                 raise Unsupported("attribute %s of opaque class %s has no declared type" % (p_, name))
-            f = z3.Function("attr_" + p_, ObjSort, a[0].sort())
-            self.assume(f(o) == self.to_term(binding[p_], a[0]))
+            ty, mutable = a
+            val = binding[p_]
+            if isinstance(ty, (TSet, TList)):
+                if not isinstance(val, VCont):
+                    raise Unsupported("container attribute %s initialised with %r" % (p_, val))
+                self.materialize(val, ty)
+                self.set_cont(VCont(("h", p_, o)), self.cont(val))
+                src = self.loc(val)
+                if src[0] == "b":
+                    self.st.alias[src] = ("h", p_, o)
+            elif mutable:
+                self.st.objheap[p_] = z3.Store(self.heap_arr(p_, ty), o, self.to_term(val, ty))
+            else:
+                f = z3.Function("attr_" + p_, ObjSort, ty.sort())
+                self.assume(f(o) == self.to_term(val, ty))
         return VObj(o, name)
 
     # ------------------------------------------------------------------ builtins
@@ -505,6 +547,18 @@ class Calls(Interp):
         if isinstance(v, VStr): return VInt(z3.Length(v.t))
         if isinstance(v, VTuple): return VInt(len(v.items))
         raise Unsupported("len of %r" % (v,))
+
+    def bi_enumerate(self, args, kwargs, node):
+        return VTuple([VBuiltin("enumerate"), args[0]])
+
+    def bi_tqdm_auto_tqdm(self, args, kwargs, node):
+        return args[0]  # progress bar wrapper: iterates the same elements (assumed)
+
+    def bi_type(self, args, kwargs, node):
+        v = args[0]
+        if isinstance(v, VExc):
+            return VClass(v.cls)
+        raise Unsupported("type(x)")
 
     def bi_bool(self, args, kwargs, node):
         return VBool(self.truth(args[0])) if args else VBool(False)
@@ -648,11 +702,17 @@ class Calls(Interp):
             if h is None:
                 raise Unsupported("method %s on %s" % (name, kind))
             return h(recv, args, kwargs)
+        if isinstance(recv, VRec):
+            return self.reg.record_methods[(recv.ty.name, name)](self, recv, args, kwargs)
         if isinstance(recv, VStr):
             h = getattr(self, "m_str_" + name, None)
             if h is None:
                 raise Unsupported("str.%s" % name)
             return h(recv, args, kwargs)
+        if isinstance(recv, VObj) and name in self.reg.obj_method_hooks:
+            if not self.spec_mode and not self.branch(recv.t != PyNone):
+                raise PyRaise(VExc("AttributeError", []))
+            return self.reg.obj_method_hooks[name](self, recv, args, kwargs)
         if isinstance(recv, VObj):
             c = self.reg.obj_methods.get("%s.%s" % (recv.cls, name)) or self.reg.obj_methods.get(name)
             if not self.spec_mode and not self.branch(recv.t != PyNone):
@@ -737,6 +797,49 @@ class Calls(Interp):
         self.set_cont(recv, EmptyV("deque"))
         self.materialize(recv, o.ty)
         return VNone
+
+    # set methods
+    def m_SetV_add(self, recv, args, kwargs):
+        c = self.cont(recv)
+        x = self.to_term(args[0], c.ty.e)
+        self.touch(c.ty.e, x)
+        self.set_cont(recv, c.replace(mem=z3.Store(c.mem, x, True), count=c.count + z3.If(c.mem[x], 0, 1)))
+        return VNone
+
+    def set_update(self, recv, other):
+        c = self.cont(recv)
+        o = self.cont(other)
+        if isinstance(o, EmptyV):
+            return
+        if not isinstance(o, SetV):
+            raise Unsupported("set update with %r" % (o,))
+        mem2 = self.fresh("union", c.mem.sort())
+        a, b = c.mem, o.mem
+        self.add_universal([c.ty.e], lambda x: mem2[x] == z3.Or(a[x], b[x]), "set-union")
+        cnt = self.fresh("unioncount", z3.IntSort())
+        self.assume(z3.And(cnt >= c.count, cnt >= o.count, cnt <= c.count + o.count))
+        self.set_cont(recv, c.replace(mem=mem2, count=cnt))
+
+    def m_SetV_update(self, recv, args, kwargs):
+        self.set_update(recv, args[0]); return VNone
+
+    # stack (call stack frames)
+    def m_StackV_append(self, recv, args, kwargs):
+        c = self.cont(recv)
+        self.set_cont(recv, c.replace(items=c.items + [args[0]])); return VNone
+
+    def m_StackV_pop(self, recv, args, kwargs):
+        c = self.cont(recv)
+        if c.items:
+            self.set_cont(recv, c.replace(items=c.items[:-1]))
+            return c.items[-1]
+        if not self.branch(c.prefix_some):
+            raise PyRaise(VExc("IndexError", []))
+        top = c.prefix_top
+        self._ctr += 1
+        nc = self.symcont(c.ty, "stackrest!%d" % self._ctr)
+        self.set_cont(recv, nc)
+        return top
 
     # list methods
     def m_ListV_append(self, recv, args, kwargs):
